@@ -334,6 +334,6 @@ impl DependencyProvider for SimProvider {
     }
 
     fn should_cancel_with_value(&self) -> Option<Box<dyn Any>> {
-        self.core.poll_cancel().map(|t| Box::new(t) as Box<dyn Any>)
+        self.core.poll_cancel().map(|t| crate::core::box_token(self.core.token_repr, &t))
     }
 }
